@@ -36,6 +36,19 @@ without VN (TS:i:3 and/or, at level >= 2, custom tags), for GFA1 optionally one 
 header line that names a supported version in VN (70% the history's, 30% the other one) and is refused for a second TS
 value or (level >= 2) a second datatype of a custom tag; the ordinary history follows.
 
+Family "long decimal identifiers" (LONGDIGITS_P = 7% of the histories; the base history is generated as before and one or
+two calls are inserted into it at random positions): an identifier that consists of decimal digits only and is as long as
+the longest string int() converts (sys.get_int_max_str_digits(), 4300 by default) or one / two / a hundred digits longer
+(LONG_LENGTHS; 4301 in half of the draws).  Such a name is legal in GFA1 and GFA2 (nothing bounds the length of an
+identifier), so these calls are expected to succeed; they walk the code that keeps track of integer names, which runs
+*after* a line has been unregistered / its placeholders have been created.  Inserted calls: the rename of a stored line
+(segment, edge, gap, group, path, L/C with ID) to such a name (label rename:longdigits:<RT>); the addition of an
+identified line (S / L / C with ID / P / E / G / O / U) under such a name, mentioning defined and undefined identifiers
+(label add:<RT>:longdigits); a line that mentions such a name before it is defined - as a segment (L, P, E, G, F) or as
+an item of a group (O, U) - optionally followed, later in the history, by the S line that defines it
+(labels add:<RT>:longdigits-mention, add:S:longdigits-def).  Whatever these calls raise, the checks above apply.  In the
+failure texts a run of 40 or more equal digits is written {<digit>*<count>}.
+
 The history ends at the first report (later steps would only echo it).
 
 On the pinned tree: changed-by-failed-add-O/U-TypeError = DESIGN 7 #4, add-O/U-NotUniqueError = #24,
@@ -55,6 +68,7 @@ NOT CHECKED:
   * calls that succeed although the generator meant them to fail are simply successful calls here (C09/C04).
 """
 import json
+import re
 from harness import lib
 from harness.props import _hist as H
 
@@ -63,7 +77,9 @@ RULE = ("random histories (4-25 calls quick, up to 60 thorough) with 40% failing
         "with successful additions/removals/renames/tag edits, GFA1 and GFA2, validation levels 0-3, 25% with the "
         "version unknown (6%: starting with header lines without VN, optional queued lines and a refused header line "
         "that names a version); refused set/delete of a field also leaves tag names and datatype of the field; one "
-        "refused call per history is left out of a second run, which must end the same. Non-trivial: at least one call raised on a Gfa holding at least two lines (decided by the "
+        "refused call per history is left out of a second run, which must end the same; 7% of the histories also rename a "
+        "stored line to / add a line under / mention before its definition an identifier of 4300, 4301, 4302 or 4400 decimal "
+        "digits (legal names at the limit of int(): calls that are expected to succeed). Non-trivial: at least one call raised on a Gfa holding at least two lines (decided by the "
         "generator's labels: at least one 'fail:' label after two additions). Distinct by case hash.")
 
 PROF = H.profile(p_fail=0.40, close=0.3,
@@ -79,8 +95,118 @@ def budget(tier):
     return 2000 if tier == "quick" else 80000
 
 
+# family "long decimal identifiers" (see the module text)
+LONGDIGITS_P = 0.07
+INT_MAX_STR_DIGITS = 4300     # default of sys.get_int_max_str_digits() (Python >= 3.11)
+LONG_LENGTHS = [INT_MAX_STR_DIGITS + 1] * 4 + [INT_MAX_STR_DIGITS, INT_MAX_STR_DIGITS, INT_MAX_STR_DIGITS + 2,
+                                               INT_MAX_STR_DIGITS + 100]
+
+
+def _long_name(rng, avoid=()):
+    for _ in range(20):
+        n = rng.choice("123456789") * rng.choice(LONG_LENGTHS)
+        if n not in avoid:
+            return n
+    return n
+
+
+def _replay(case):
+    """the text model after every step of the history (states[k] = before step k), the way the generator ran it"""
+    m = H.TextModel(case["flavour"])
+    states = [m.copy()]
+    for step, lab in zip(case["hist"], case["labels"]):
+        if lab not in H.NOAPPLY and step[0] != "addline0":
+            try:
+                m.apply(step)
+            except Exception:  # the model is only used to pick plausible targets
+                pass
+        states.append(m.copy())
+    return states
+
+
+def _seg(rng, m, p_undefined=0.35):
+    d = m.ids_of("S")
+    return rng.choice(d) if d and not rng.chance(p_undefined) else rng.choice(H.SEGS)
+
+
+def inject_long_digits(rng, case):
+    """insert one or two calls that use an identifier of (about) INT_MAX_STR_DIGITS decimal digits; the steps of the base
+    history keep their order"""
+    v = case["flavour"]
+    states = _replay(case)
+    n = len(case["hist"])
+    ins = []  # (position, step, label)
+    kinds = ["rename", "rename", "add-id", "mention"]
+    kind = rng.choice(kinds)
+    long1 = _long_name(rng)
+    if kind == "rename":
+        spots = [k for k in range(1, n + 1) if states[k].ids()]
+        if not spots:
+            kind = "add-id"
+        else:
+            # prefer a position where the line is mentioned by other lines (links, paths, groups follow the rename)
+            k = rng.choice(spots)
+            m = states[k]
+            ids = m.ids()
+            men = m.mentioned()
+            named = sorted(ids)
+            conn = [x for x in named if x in men]
+            a = rng.choice(conn) if conn and rng.chance(0.7) else rng.choice(named)
+            ins.append((k, ["rename", a, long1], "rename:longdigits:" + m.recs[ids[a]][0]))
+            if rng.chance(0.3):
+                # a second line gets another such name later on
+                k2 = rng.randint(k, n)
+                m2 = states[k2]
+                others = sorted(x for x in m2.ids() if x != a)
+                if others:
+                    b = rng.choice(others)
+                    ins.append((k2, ["rename", b, _long_name(rng, (long1,))], "rename:longdigits:" + m2.recs[m2.ids()[b]][0]))
+    if kind in ("add-id", "mention"):
+        k = rng.randint(0, n)
+        m = states[k]
+        a, b = _seg(rng, m), _seg(rng, m)
+        oa, ob = rng.choice("+-"), rng.choice("+-")
+        if kind == "add-id":
+            if v == "gfa1":
+                c = [("S", "S\t%s\t*" % long1), ("L", "L\t%s\t%s\t%s\t%s\t*\tID:Z:%s" % (a, oa, b, ob, long1)),
+                     ("C", "C\t%s\t%s\t%s\t%s\t0\t*\tID:Z:%s" % (a, oa, b, ob, long1)),
+                     ("P", "P\t%s\t%s%s,%s%s\t*" % (long1, a, oa, b, ob))]
+            else:
+                items = [rng.choice(H.SEGS + H.EDGE_IDS + ["x", "y"]) for _ in range(rng.choice([1, 2, 3]))]
+                c = [("S", "S\t%s\t10\t*" % long1), ("E", "E\t%s\t%s%s\t%s%s\t0\t5\t5\t10$\t*" % (long1, a, oa, b, ob)),
+                     ("G", "G\t%s\t%s%s\t%s%s\t5\t*" % (long1, a, oa, b, ob)),
+                     ("U", "U\t%s\t%s" % (long1, " ".join(items))), ("U", "U\t%s\t%s" % (long1, " ".join(items))),
+                     ("O", "O\t%s\t%s" % (long1, " ".join(x + rng.choice("+-") for x in items)))]
+            rt, text = rng.choice(c)
+            ins.append((k, ["add", text], "add:%s:longdigits" % rt))
+        else:
+            if v == "gfa1":
+                c = [("L", "L\t%s\t%s\t%s\t%s\t*" % (long1, oa, b, ob)), ("L", "L\t%s\t%s\t%s\t%s\t*" % (a, oa, long1, ob)),
+                     ("C", "C\t%s\t%s\t%s\t%s\t0\t*" % (a, oa, long1, ob)),
+                     ("P", "P\tp8\t%s%s,%s%s\t*" % (a, oa, long1, ob))]
+            else:
+                c = [("U", "U\tu8\t%s %s" % (long1, a)), ("U", "U\tu8\t%s %s" % (a, long1)), ("U", "U\t*\t%s" % long1),
+                     ("O", "O\to8\t%s%s %s%s" % (a, oa, long1, ob)),
+                     ("E", "E\t*\t%s%s\t%s%s\t0\t5\t5\t10$\t*" % (a, oa, long1, ob)),
+                     ("G", "G\t*\t%s%s\t%s%s\t5\t*" % (long1, oa, b, ob)), ("F", "F\t%s\tr1+\t0\t5\t0\t5\t*" % long1)]
+            rt, text = rng.choice(c)
+            ins.append((k, ["add", text], "add:%s:longdigits-mention" % rt))
+            if rng.chance(0.6):
+                ins.append((rng.randint(k, n), ["add", "S\t%s\t*" % long1 if v == "gfa1" else "S\t%s\t10\t*" % long1],
+                            "add:S:longdigits-def"))
+    hist, labels = list(case["hist"]), list(case["labels"])
+    # stable: later positions first, so that earlier positions stay valid; of two calls at the same position the one
+    # listed first comes first
+    for pos, step, lab in sorted(ins, key=lambda x: -x[0]):
+        hist.insert(pos, step); labels.insert(pos, lab)
+    return dict(case, hist=hist, labels=labels)
+
+
 def gen_case(rng, tier, i):
-    return H.gen_case(rng, tier, PROF, p_unknown=0.25, vlevels=(1, 1, 1, 1, 1, 2, 2, 3, 3, 0))
+    case = H.gen_case(rng, tier, PROF, p_unknown=0.25, vlevels=(1, 1, 1, 1, 1, 2, 2, 3, 3, 0))
+    if rng.chance(LONGDIGITS_P):
+        case = inject_long_digits(rng, case)
+    return case
 
 
 def nontrivial(case):
@@ -113,7 +239,16 @@ def observe(g, full):
         return {"OBS-EXC": e.__class__.__name__}
 
 
+def _short(s):
+    """a run of 40 or more equal digits (family "long decimal identifiers") is written {<digit>*<count>}"""
+    return re.sub(r"([0-9])\1{39,}", lambda m: "{%s*%d}" % (m.group(1), len(m.group(0))), s)
+
+
 def _diff(a, b):
+    return _short(_diff_full(a, b))[:900]
+
+
+def _diff_full(a, b):
     out = []
     for k in sorted(set(a) | set(b)):
         if a.get(k) != b.get(k):
@@ -129,7 +264,7 @@ def _diff(a, b):
                 out.append("%s: %s" % (k, "; ".join("%r: %r -> %r" % (kk, x.get(kk), y.get(kk)) for kk in ks[:3])))
             else:
                 out.append("%s: %r -> %r" % (k, x, y))
-    return " | ".join(out)[:900]
+    return " | ".join(out)
 
 
 def field_obs(line, step):
@@ -217,7 +352,7 @@ def oracle(case):
                 if fa != fb:
                     F.append("field-changed-by-failed-%s-%s: %s [step %d %r]" % (H.step_kind(step), r[1], _diff(fb, fa), k, step))
             if F:
-                return F
+                return [_short(x) for x in F]
         elif not full and step[0] == "add" and step[1].startswith("H"):
             headers.append(step[1])
         before = after
@@ -227,7 +362,7 @@ def oracle(case):
         d = twin_check(case, results, skip, before, full)
         if d is not None:
             unk = "[version-unknown]" if not full else ""
-            return ["refused-call-shows-later-%s%s: refused call %d %r; %s" % (H.step_kind(case["hist"][skip]), unk, skip, case["hist"][skip], d)]
+            return [_short("refused-call-shows-later-%s%s: refused call %d %r; %s" % (H.step_kind(case["hist"][skip]), unk, skip, case["hist"][skip], d))]
     return []
 
 
